@@ -28,6 +28,8 @@ def gen_plan(verif_seed, run, vle_full_every=10):
             meas.append({"from_set": ci, "component": w.choice([0, 1])})
     while len(meas) < 3 or (len(meas) < 6 and w.random() < 0.5):
         meas.append({"points": hist.synth_points(w, endpoints=0.5)})
+    if w.random() < 0.04:
+        meas.append({"points": hist.synth_points(w, npts=w.randint(101, 130), ntemps=w.randint(2, 4))})
     w.shuffle(meas)
     spec["measurements"] = meas
     full_vle = (run % vle_full_every) == 0
